@@ -19,6 +19,53 @@ def N(name, bound, tier="thorough", timeout=1500, **kw):
                 bound=bound, stubs=[SHIM])
 
 
+# ---------------------------------------------------------------- Tag::new: one inductive step (engine B)
+def _tag_obligation():
+    from mir2smt import term as tm
+    from mir2smt.term import I
+    from mir2smt.execmir import Agg, Enum, Ref, Cell
+
+    def build(sym, bind):
+        if sym.consts is not None:
+            n0 = I(sym.consts.get("next_tag_value", 1))
+        else:
+            n0 = tm.V("next_tag_value")
+            sym.assumes.append(tm.and_(tm.le(I(1), n0), tm.le(n0, I((1 << 32) - 2))))
+            sym.vars["next_tag_value"] = "u32"
+        return {"n0": n0}, []
+
+    def env_lock(ex, m, args, tys, st, fn, symargs):
+        st.counter = Ref(Cell(symargs["n0"]))  # the value protected by the mutex, arbitrary but not exhausted
+        return [(st, Enum(0, {0: [st.counter]}, "Result"))]
+
+    def env_deref(ex, m, args, tys, st, fn, symargs):
+        return [(st, ex.deref(args[0]))]  # &guard -> &mut u32 inside the mutex
+
+    def env_nonzero_new(ex, m, args, tys, st, fn, symargs):
+        n = args[0]
+        s2 = st.fork()
+        if not st.assume(tm.ne(n, I(0))):
+            return [(s2, Enum(0, {}, "Option"))] if s2.assume(tm.eq(n, I(0))) else []
+        out = [(st, Enum(1, {1: [n]}, "Option"))]
+        if s2.assume(tm.eq(n, I(0))):
+            out.append((s2, Enum(0, {}, "Option")))
+        return out
+
+    def post(a, ret, st):
+        tag_value = ret.fields[0]
+        after = st.counter.cell.v
+        return tm.and_(tm.eq(tag_value, a["n0"]), tm.eq(after, tm.add(a["n0"], I(1))))
+
+    return dict(engine="B", name="c20_tag_new_inductive_step", crates=["texlang"], fn=("texlang", "new", "Tag", None),
+                args=[], build_args=build, post=post, post_state=True,
+                env_models=[(r"^std::sync::Mutex::<u32>::lock$", env_lock),
+                            (r"^<std::sync::MutexGuard<'_, u32> as (?:std::ops::)?Deref(?:Mut)?>::deref(?:_mut)?$", env_deref),
+                            (r"^NonZero::<u32>::new$", env_nonzero_new)],
+                witnesses=[("first tag", lambda a: tm.eq(a["n0"], I(1))), ("a large counter", lambda a: tm.eq(a["n0"], I((1 << 32) - 2)))],
+                funcs=["texlang::command::Tag::new (MIR; the mutex replaced by a stub that hands out the protected counter with an arbitrary value)"],
+                bound="one call from an arbitrary counter value in [1, 2^32-2]: returns exactly the counter and leaves counter+1, never panics - by induction, sequentially created tags are strictly increasing, hence pairwise distinct (threads are NOT decided: the stub assumes the lock is held exclusively and not poisoned)")
+
+
 PROP = {
     "level_text": "Sequential behaviour only, within the stated bounds: scoped map vs stack of snapshots for every history, KMP matcher vs the naive definition, interner under colliding hashers. 'From any number of threads' is NOT decided (Kani does not model threads).",
     "title": "Core containers and identifiers meet their sequential specs",
@@ -29,7 +76,7 @@ PROP = {
         "which hashes collide."),
     "outside": [
         "iter_all + FromIterator ('replaying its full iteration rebuilds a map'): NOT decided. The rebuild harness ran CBMC out of memory after every 3-operation history (14 GB) and after every 2-operation history (28 GB limit, 472 s); it is kept in the harness file but not registered",
-        "schedules: Kani does not model threads, so 'tags created from any number of threads are distinct' is NOT decided; only sequential behaviour is",
+        "schedules: neither engine models threads, so 'tags created from any number of threads are distinct' is NOT decided; sequentially it follows by induction from c20_tag_new_inductive_step (mutual exclusion of the std Mutex is trusted, not checked); StaticTag (OnceLock) is not decided",
         "histories longer than 6 operations (8 with the fixed prefixes), nesting deeper than 3, more than 2 keys",
         "GroupingVec (Vec-backed) histories: its backing Vec<Option<V>> resizes on a symbolic key; only the HashMap-backed instantiation is decided",
         "interner: strings longer than 2 bytes, more than 3 strings (and of 3 strings only the length triple 1,2,1), the serde rebuild path; the serde rebuild path",
@@ -42,6 +89,7 @@ PROP = {
         G("c20_grouping_hashmap_depth3_prefix_then4", "from inside two open groups, each with one local binding (keys, values symbolic): every history of 4 further operations, depth <= 3", tier="thorough", timeout=1800),
         G("c20_grouping_hashmap_merged5", "every history of 5 operations, depth <= 2", tier="thorough", timeout=1200),
         G("c20_grouping_hashmap_merged6", "every history of 6 operations, depth <= 2", tier="thorough", timeout=1800),
+        _tag_obligation(),
         M("c20_matcher_m1_n6", "pattern length 1, text length 6, alphabet {a,b}: all 2^7 instances"),
         M("c20_matcher_m2_n6", "pattern length 2, text length 6, alphabet {a,b}"),
         M("c20_matcher_m3_n7", "pattern length 3, text length 7, alphabet {a,b}"),
